@@ -6,6 +6,7 @@ import ShexerModel.Model.Text
 import ShexerModel.Model.MinIri
 import ShexerModel.Model.MergeE
 import ShexerModel.Model.Nt
+import ShexerModel.Model.Ttl
 import ShexerModel.Spec.Counts
 import ShexerModel.Spec.ShExSem
 open Shexer
@@ -144,6 +145,17 @@ def runCase (st : DState) (what id : String) : List String :=
         | .ok (some t) => "OK\t" ++ term t.s ++ "\t" ++ t.p ++ "\t" ++ term t.o
         | .ok none => "DROPPED"
         | .error _ => "EXC"
+    | "ttldoc" =>
+      let term : Term → String
+        | .iri v => "IRI\t" ++ v
+        | .bnode v => "BNode\t" ++ v
+        | .lit dt => "Literal\t" ++ dt
+      match Ttl.readLines Ttl.simpleResolve (st.rawLines.toList.map String.toList) with
+      | .ok ts => ts.map fun t => "T\t" ++ term t.s ++ "\t" ++ t.p ++ "\t" ++ term t.o
+      | .error (.valueError _) => ["EXC\tValueError"]
+      | .error .runtimeError => ["EXC\tRuntimeError"]
+      | .error .attributeError => ["EXC\tAttributeError"]
+      | .error .indexError => ["EXC\tIndexError"]
     | "merge" =>
       -- unit level: `MergeableConstraints.merge_group` on the statements of the last shape, failure modes included
       match st.shapes.back? with
